@@ -219,7 +219,13 @@ func (g *SynGrammar) render() string {
 						args += fmt.Sprintf(", $%d", k)
 					}
 				}
-				fmt.Fprintf(&b, "  << vlog.Call($Context, %d%s) >>", pn, args)
+				if pn%3 == 0 {
+					// the text of an action is Go source, not a format: a per cent sign in it
+					// must reach the generated code as it is (the call number depends on it)
+					fmt.Fprintf(&b, "  << vlog.Call($Context, %d+len(\"%%d%%s%%%%\")-6%s) >>", pn, args)
+				} else {
+					fmt.Fprintf(&b, "  << vlog.Call($Context, %d%s) >>", pn, args)
+				}
 			default:
 				fmt.Fprintf(&b, "  << %s >>", p.Action)
 			}
@@ -294,8 +300,13 @@ type synGenOpts struct {
 	ErrorAlts                     bool    // add alternatives that begin with `error`
 	Actions                       bool    // logging actions on a random subset of alternatives
 	Reduced                       bool    // remove unproductive nonterminals (C06's domain)
+	PRawLit                       float64 // probability that a literal comes from rawLitPool
 	PSplit                        float64 // probability that one nonterminal is defined by two rules that are not adjacent
 }
+
+// rawLitPool: string literals with a line break, NUL, a byte order mark (only where no debug
+// output is read line by line: the literal is printed there as it is)
+var rawLitPool = []string{"x\ny", "a\x00b", "\ufeffq", "a\tb"}
 
 var litPool = []string{"+", "-", "*", "(", ")", ";", ",", "if", "else", "==", "=", "x y", "é", "a b", "日本"}
 
@@ -311,6 +322,9 @@ func genSynGrammar(rng *rand.Rand, o synGenOpts) *SynGrammar {
 	for i := 0; i < nt; i++ {
 		if rng.Float64() < o.PLit {
 			l := litPool[rng.Intn(len(litPool))]
+			if o.PRawLit > 0 && rng.Float64() < o.PRawLit {
+				l = rawLitPool[rng.Intn(len(rawLitPool))]
+			}
 			if !usedLit[l] {
 				usedLit[l] = true
 				g.Terms = append(g.Terms, l)
@@ -576,6 +590,12 @@ func curatedSyn() []*SynGrammar {
 		// a nonterminal defined by two rules that are not adjacent
 		splitG(synG([]string{"Stmt", "Expr"}, []string{"\"let\"", "\"print\"", "x", "\"+\""},
 			P(0, T(0), T(2)), P(1, T(2)), P(1, N(1), T(3), T(2)), P(0, T(1), N(1)))),
+		// a nullable left-recursive list directly after another nonterminal
+		synG([]string{"Block", "Header", "Stmts", "Stmt"}, []string{"\"begin\"", "\"end\"", "p", "x", "\";\""},
+			P(0, N(1), N(2), T(1)), P(1, T(0), T(2)), P(2, N(2), N(3)), P(2), P(3, T(3), T(4))),
+		// a reduce/reduce conflict between productions 9 and 10 (one and two digits)
+		synG([]string{"S", "A", "B"}, []string{"x1", "x2", "x3", "x4", "x5", "x6", "a"},
+			P(0, T(0)), P(0, T(1)), P(0, T(2)), P(0, T(3)), P(0, T(4)), P(0, T(5)), P(0, N(1)), P(0, N(2)), P(1, T(6)), P(2, T(6))),
 		// long right-recursive chains (a cascade of reductions at the end of the input)
 		synG([]string{"Type", "Base"}, []string{"name", "\"->\"", "\"(\"", "\")\""},
 			P(0, N(1)), P(0, N(1), T(1), N(0)), P(1, T(0)), P(1, T(2), N(0), T(3))),
